@@ -14,7 +14,7 @@ for p in "$@"; do
   log=/tmp/tw/log-$id-$p.txt
   "$here/tools/in_tree.sh" "$wt" ./check "$p" --tier ${TIER:-quick} > "$log" 2>&1
   rc=$?
-  echo "$(basename $(dirname "$patch"))/$(basename "$patch") $p exit=$rc $(grep -m1 '^counterexample:\|^INCONCLUSIVE' "$log" | cut -c1-${WIDTH:-220})"
+  echo "$(echo $patch | sed "s#.*/\(C[0-9][0-9][^/]*\)/\(out/\)\?#\1/#") $p exit=$rc $(grep -m1 '^counterexample:\|^INCONCLUSIVE' "$log" | cut -c1-${WIDTH:-220})"
 done
 git -C /repo worktree remove --force "$wt"
 rm -rf "$VERIF_SCRATCH"
